@@ -260,6 +260,70 @@ func checkTraverse(c travCase) *vk.Failure {
 		}
 	}
 
+	// -- reuse: "Reset resets the state of the traverser for reuse". A walk that
+	// may stop early (until returns true while nodes are still queued or
+	// stacked), Reset, then a full walk from another root on the same value must
+	// behave like a walk of a fresh traverser: Visit exactly once on every node
+	// reachable from the new root and on nothing else, and for BFS until(x, d)
+	// with d the hop distance from the new root.
+	if n >= 2 {
+		root2 := (root + 1 + int(c.Target%uint64(n-1))) % n
+		dist2 := hops(m, c, root2)
+		rootNode2 := g.Node(m.id[root2])
+		for _, kind := range []string{"bfs", "dfs"} {
+			visits := make([]int, n)
+			second := false
+			var fail *vk.Failure
+			visit := func(x graph.Node) {
+				if i, ok := m.idx[x.ID()]; ok && second {
+					visits[i]++
+				}
+			}
+			stopFirst := func(i, d int) bool { return c.isTarget(i) || (c.Depth > 0 && d >= c.Depth) }
+			traversed = map[[2]int]int{}
+			var visited func(graph.Node) bool
+			if kind == "bfs" {
+				w := traverse.BreadthFirst{Visit: visit, Traverse: filter}
+				w.Walk(g, rootNode, func(x graph.Node, d int) bool { return stopFirst(m.idx[x.ID()], d) })
+				w.Reset()
+				second = true
+				w.Walk(g, rootNode2, func(x graph.Node, d int) bool {
+					i, ok := m.idx[x.ID()]
+					if ok && fail == nil && d != dist2[i] {
+						fail = vk.Failf("bfs-reuse-depth", "after an earlier walk from %d and Reset, the walk from %d reports node %d at depth %d, hop distance is %d", m.id[root], m.id[root2], x.ID(), d, dist2[i])
+					}
+					return false
+				})
+				visited = w.Visited
+			} else {
+				w := traverse.DepthFirst{Visit: visit, Traverse: filter}
+				w.Walk(g, rootNode, func(x graph.Node) bool { return stopFirst(m.idx[x.ID()], 0) })
+				w.Reset()
+				second = true
+				w.Walk(g, rootNode2, nil)
+				visited = w.Visited
+			}
+			if fail != nil {
+				return fail
+			}
+			if badEdge != nil {
+				return badEdge
+			}
+			for v := 0; v < n; v++ {
+				want := 0
+				if dist2[v] >= 0 {
+					want = 1
+				}
+				if visits[v] != want {
+					return vk.Failf(kind+"-reuse-visits", "after an earlier walk from %d (stopped by until) and Reset, the walk from %d visited node %d %d times; it is reachable from the new root: %v", m.id[root], m.id[root2], m.id[v], visits[v], dist2[v] >= 0)
+				}
+				if visited(g.Node(m.id[v])) != (dist2[v] >= 0) {
+					return vk.Failf(kind+"-reuse-visited", "after Reset and a walk from %d, Visited(%d) = %v, reachable = %v", m.id[root2], m.id[v], !(dist2[v] >= 0), dist2[v] >= 0)
+				}
+			}
+		}
+	}
+
 	// -- DFS with until
 	{
 		visits := make([]int, n)
